@@ -2,7 +2,7 @@
    Only statements, `exact`, and Print Assumptions.  Model: Model/Authority.v, Model/Redirect.v. *)
 From ReqV Require Import Lib.Bytes Model.Authority Model.Redirect Model.RedirectClient
   Proofs.RedirectProofs Proofs.RedirectClientProofs Proofs.RedirectSyncProofs.
-From ReqV Require Import Gen.RedirectClientFacts.
+From ReqV Require Import Gen.RedirectClientFacts Gen.RedirectHost.
 
 (* Host identity = URL hostname, case-insensitive, port stripped whatever its form, IPv6
    without brackets - for EVERY well-formed authority. *)
@@ -258,6 +258,17 @@ Theorem C11_permits_is_the_source : forall p target via,
   permits p target via = src_permits p target via.
 Proof. exact permits_is_the_source. Qed.
 Print Assumptions C11_permits_is_the_source.
+
+(* the model's host identity functions are getHostname / getDomain of redirect.go translated
+   statement by statement (net.SplitHostPort -> split_host_port, `netip.ParseAddr succeeds` ->
+   is_ip_literal) *)
+Theorem C11_get_hostname_is_the_source : forall host, get_hostname host = src_get_hostname host.
+Proof. exact get_hostname_is_the_source. Qed.
+Print Assumptions C11_get_hostname_is_the_source.
+
+Theorem C11_get_domain_is_the_source : forall host, get_domain host = src_get_domain host.
+Proof. exact get_domain_is_the_source. Qed.
+Print Assumptions C11_get_domain_is_the_source.
 
 (* SetRedirectPolicy / Clone / C() have the shape the client model rests on *)
 Theorem C11_client_source_shape :
